@@ -1,12 +1,17 @@
 #!/usr/bin/env python3
-"""Apply a patch to /repo, run the quick (or thorough) checks of the given
-properties, undo the patch. usage: trymut.py [-R] [--tier T] [--suite] <patch> C01 C07 ..."""
-import subprocess, sys, os, time
+"""Apply a patch, run the quick (or thorough) checks of the given properties, undo the patch.
+usage: trymut.py [-R] [--tier T] [--suite] [--scratch] <patch | seeded/<id> directory> C01 C07 ...
+Default: the patch is applied to /repo and undone straight afterwards. With --scratch it is applied to a private copy of
+/repo's HEAD under /root/scratch (removed afterwards) and the checks run against that copy (VERIF_REPO) - /repo is not
+touched, so this can run next to other jobs that use /repo."""
+import subprocess, sys, os, time, shutil
 args = sys.argv[1:]
 rev = '-R' in args
 if rev: args.remove('-R')
 suite = '--suite' in args
 if suite: args.remove('--suite')
+scratch = '--scratch' in args
+if scratch: args.remove('--scratch')
 tier = 'quick'
 if '--tier' in args:
     i = args.index('--tier'); tier = args[i + 1]; del args[i:i + 2]
@@ -15,23 +20,39 @@ if os.path.isdir(patch):      # a seeded/<id> directory: the form of the patch t
     cand = [os.path.join(patch, n) for n in ('patch.head.diff', 'patch.diff')]
     patch = next((c for c in cand if os.path.exists(c) and subprocess.run(['git', '-C', '/repo', 'apply', '--check', c],
                                                                           capture_output=True).returncode == 0), cand[-1])
-st = subprocess.run(['git', '-C', '/repo', 'status', '--porcelain', '--', 'segno'], capture_output=True, text=True).stdout
-if st.strip():
-    print('repo not clean:', st); sys.exit(3)
-cmd = ['git', '-C', '/repo', 'apply'] + (['-R'] if rev else []) + [patch]
-r = subprocess.run(cmd, capture_output=True, text=True)
+patch = os.path.abspath(patch)
+env = dict(os.environ)
+if scratch:
+    target = '/root/scratch/trymut-%d' % os.getpid()
+    shutil.rmtree(target, ignore_errors=True)
+    os.makedirs(target)
+    subprocess.run('git -C /repo archive --format=tar HEAD | tar -x -C %s' % target, shell=True, check=True)
+    r = subprocess.run('cd %s && patch -p1 -s %s < %s' % (target, '-R' if rev else '', patch), shell=True, capture_output=True, text=True)
+    env['VERIF_REPO'] = target
+else:
+    target = '/repo'
+    st = subprocess.run(['git', '-C', '/repo', 'status', '--porcelain', '--', 'segno'], capture_output=True, text=True).stdout
+    if st.strip():
+        print('repo not clean:', st); sys.exit(3)
+    r = subprocess.run(['git', '-C', '/repo', 'apply'] + (['-R'] if rev else []) + [patch], capture_output=True, text=True)
 if r.returncode:
-    print('patch does not apply:', r.stderr); sys.exit(3)
+    print('patch does not apply:', (r.stdout + r.stderr)[-400:])
+    if scratch: shutil.rmtree(target, ignore_errors=True)
+    sys.exit(3)
 try:
     if suite:
-        r = subprocess.run('cd /repo && /venv/bin/python -m pytest -q -p no:cacheprovider 2>&1 | tail -1', shell=True, capture_output=True, text=True)
+        r = subprocess.run('cd %s && PYTHONPATH=%s /venv/bin/python -m pytest -q -p no:cacheprovider 2>&1 | tail -1' % (target, target),
+                           shell=True, capture_output=True, text=True)
         print('suite:', r.stdout.strip())
     for p in props:
         t = time.time()
-        r = subprocess.run(['/venv/bin/python', '-m', 'vmon', 'check', p, '--tier', tier], cwd='/verif', capture_output=True, text=True)
+        r = subprocess.run(['/venv/bin/python', '-m', 'vmon', 'check', p, '--tier', tier], cwd='/verif', capture_output=True, text=True, env=env)
         lines = [l for l in r.stdout.splitlines() if l.startswith(('VIOLATION', 'INCONCLUSIVE', '  deviation'))]
         print('%s exit=%d %.0fs %s' % (p, r.returncode, time.time() - t, 'CAUGHT' if r.returncode == 1 else ('inconclusive' if r.returncode == 2 else 'MISSED')))
         for l in lines[:6]: print('   ', l[:400])
         if r.returncode not in (0, 1, 2): print(r.stderr[-800:])
 finally:
-    subprocess.run(['git', '-C', '/repo', 'checkout', '--', 'segno'])
+    if scratch:
+        shutil.rmtree(target, ignore_errors=True)
+    else:
+        subprocess.run(['git', '-C', '/repo', 'checkout', '--', 'segno'])
